@@ -7,7 +7,7 @@ Local Open Scope R_scope.
 Lemma tie_jrot3c_p010 p q r x y br bi cr ci : jrot3c_p010_pc (OO:=ROps) p q r x y br bi cr ci -> jc3_spec p q r x y br bi cr ci (jrot3c_p010 (OO:=ROps) p q r x y br bi cr ci).
 Proof.
   unfold jc3_spec. autounfold with gen; ops_R. cbv beta iota zeta delta [nth firstn skipn Nat.add].
-  set (sq := 1 / 2 * (p - q)) in *. fold (pnorm sq x (- y)). intros [Hp [Hq Hx]].
+  set (sq := 1 / 2 * (p - q)) in *. rewrite ?(hyp_pnorm sq x (- y)). intros [Hp [Hq Hx]].
   assert (Ep : p = q + 2 * sq) by (unfold sq; field). clearbody sq. subst p.
   assert (Hax : ~ (x = 0 /\ - y = 0)) by tauto. destruct (d_stable sq x (- y) Hq Hax) as [Ed [Hd PP]].
   rewrite !Ed. pose proof (pnorm_sq sq x (- y)) as Sp.
